@@ -17,8 +17,20 @@ from gallia.services.uds.core.constants import (
 )
 from gallia.services.uds.core.service import NegativeResponse
 from gallia.services.uds.core.utils import g_repr
+from gallia.services.uds.ecu import ECU
 
 logger = get_logger(__name__)
+
+
+async def change_session(ecu: ECU, session: int) -> None:
+    """Enter the session given by --session; a refusal is fatal."""
+    if session == DiagnosticSessionControlSubFuncs.defaultSession.value:
+        return
+
+    resp = await ecu.set_session(session)
+    if isinstance(resp, NegativeResponse):
+        logger.critical(f"could not change to session: {g_repr(session)}: {resp}")
+        sys.exit(1)
 
 
 class DTCPrimitiveConfig(UDSScannerConfig):
@@ -101,6 +113,7 @@ class ReadDTCPrimitive(UDSScanner):
         return dtcs
 
     async def main(self) -> None:
+        await change_session(self.ecu, self.config.session)
         dtcs = await self.fetch_error_codes(self.config.mask)
 
         failed_dtcs: list[list[str]] = []
@@ -173,6 +186,7 @@ class ClearDTCPrimitive(UDSScanner):
         self.config: ClearDTCPrimitiveConfig = config
 
     async def main(self) -> None:
+        await change_session(self.ecu, self.config.session)
         group_of_dtc: int = self.config.group_of_dtc
 
         min_group_of_dtc = 0
@@ -201,6 +215,7 @@ class ControlDTCPrimitive(UDSScanner):
 
     async def main(self) -> None:
         assert isinstance(self.config, ControlDTCPrimitiveConfig)
+        await change_session(self.ecu, self.config.session)
 
         if self.config.stop:
             await self.ecu.control_dtc_setting(CDTCSSubFuncs.OFF)
